@@ -1,5 +1,7 @@
 import KinModel.Drv.Util
 import KinModel.Style
+import KinModel.StyleNest
+import KinModel.StyleContent
 open Lean
 namespace KinModel.Drv.C05
 open KinModel.Drv KinModel.Style
@@ -46,6 +48,7 @@ def parseLeaf (j : Json) : Leaf :=
   | "obj" => .obj ((getArr j "props").map (fun kv => (chars (asStr (pair kv).1), parsePS (pair kv).2)))
       ((getArr j "required").map (fun s => chars (asStr s)))
       (if isNull j "addl" then none else some (parsePS (getD j "addl" .null)))
+  | "untyped" => .untyped ((getArr j "enum").map parseEV)
   | "deep" => .deep ((getArr j "props").map (fun kv => (chars (asStr (pair kv).1), parseDS (pair kv).2)))
       ((getArr j "required").map (fun s => chars (asStr s)))
   | _ => .prim (parsePS j)
@@ -148,6 +151,7 @@ def reqStrings (r : Req) : List Str :=
 
 def psHasInt (ps : PS) : Bool := psIsInt ps
 def leafHasInt : Leaf → Bool
+  | .untyped _ => false
   | .prim ps => psHasInt ps
   | .arr it _ _ _ => psHasInt it
   | .obj sp _ ad => sp.any (fun kv => psHasInt kv.2) || (match ad with | some a => psHasInt a | none => false)
@@ -155,6 +159,7 @@ def leafHasInt : Leaf → Bool
 
 def psHasNum (ps : PS) : Bool := ps.t = .number
 def leafHasNum : Leaf → Bool
+  | .untyped _ => false
   | .prim ps => psHasNum ps
   | .arr it _ _ _ => psHasNum it
   | .obj sp _ ad => sp.any (fun kv => psHasNum kv.2) || (match ad with | some a => psHasNum a | none => false)
@@ -172,18 +177,161 @@ def exoticNumberText (s : Str) : Bool :=
   l.contains '_' || hasSub "0x".toList l || hasSub "inf".toList l || hasSub "nan".toList l
 
 def leafKind : Leaf → String
-  | .prim _ => "prim" | .arr _ _ _ _ => "arr" | .obj _ _ _ => "obj" | .deep _ _ => "deep"
+  | .prim _ => "prim" | .arr _ _ _ _ => "arr" | .obj _ _ _ => "obj" | .deep _ _ => "deep" | .untyped _ => "untyped"
+
+/-- colliding deepObject keys (same bracket groups, e.g. `p[a]` and `p[a]zz`): the Go map keeps one of them, which one
+depends on the iteration order. The driver evaluates the model on the request and on the request with the query
+entries reversed (first wins / last wins); that covers a single collision of two single-valued keys — more is unsupported. -/
+def collisionOK (props : List (List Str × List Str)) : Bool :=
+  let dups := props.filter (fun a => (props.filter (fun b => b.1 = a.1)).length ≥ 2)
+  dups.isEmpty || (dups.length = 2 && dups.all (fun a => a.2.length = 1))
+
+def deepSupportedD (name : Str) (r : Req) (sprops : List (Str × DS)) : Bool :=
+  (deepProps name r.query).all (deepSupportedKey sprops) && collisionOK (deepProps name r.query)
 
 def unsupportedLeaf (c : Cell) (name : Str) (r : Req) : Leaf → Bool
-  | .deep sp _ => c.style = .deepObject && !deepSupported name r sp
-  | .obj sp _ ad => c.style = .deepObject && (ad.isSome || !deepSupported name r (sp.map (fun kv => (kv.1, DS.prim kv.2))))
+  | .deep sp _ => c.style = .deepObject && !deepSupportedD name r sp
+  | .obj sp _ _ => c.style = .deepObject && !deepSupportedD name r (sp.map (fun kv => (kv.1, DS.prim kv.2)))
   | _ => false
 
 def valBranch : Val → String
   | .nil => "val.nil" | .nilObj => "val.nilmap" | .prim _ => "val.prim" | .arr _ => "val.arr"
   | .obj [] => "val.emptyobj" | .obj _ => "val.obj" | .dobj _ => "val.deep"
 
-def handle (j : Json) : Json :=
+/-! ### deepObject at every depth (schema kind "nest") -/
+
+partial def parseNS (j : Json) : NS :=
+  match getStr j "k" with
+  | "arr" => .arr (parseNS (getD j "items" .null))
+  | "obj" => .obj ((getArr j "props").map (fun kv => (chars (asStr (pair kv).1), parseNS (pair kv).2)))
+      ((getArr j "required").map (fun s => chars (asStr s)))
+      (if isNull j "addl" then none else some (parseNS (getD j "addl" .null)))
+  | _ => .prim (parsePS j)
+
+partial def nvJson (pj : PV → Json) : NV → Json
+  | .nil => Json.null
+  | .p v => pj v
+  | .a xs => Json.arr (xs.map (nvJson pj)).toArray
+  | .o kvs => Json.mkObj (kvs.map (fun kv => (text kv.1, nvJson pj kv.2)))
+
+def noutJson (pj : PV → Json) (o : NOut) : Json :=
+  match o.val with
+  | none => Json.null
+  | some kvs => Json.mkObj (kvs.map (fun kv => (text kv.1, nvJson pj kv.2)))
+
+def noutSame (a b : NOut) : Bool :=
+  (noutJson pvJson a).compress == (noutJson pvJson b).compress && a.found == b.found &&
+  (errStr a.err).compress == (errStr b.err).compress
+
+/-- index-like segments outside the model's domain: non-canonical or signed decimals (strconv.Atoi accepts them) -/
+def oddIndex (s : Str) : Bool :=
+  ((readNat s).isSome && (natIndex s).isNone) ||
+  (match s with
+   | '+' :: d => (readNat d).isSome
+   | '-' :: d => (readNat d).isSome
+   | _ => false)
+
+def handleNest (j : Json) : Json :=
+  let name := chars (getStr j "name")
+  let sj := getD j "schema" .null
+  let props := (getArr sj "props").map (fun kv => (chars (asStr (pair kv).1), parseNS (pair kv).2))
+  let req := (getArr sj "required").map (fun s => chars (asStr s))
+  let addl := if isNull sj "addl" then none else some (parseNS (getD sj "addl" .null))
+  let p : NParam := ⟨name, getBool j "required", getBool j "allowEmpty", props, req, addl⟩
+  let r := parseReq j
+  let r2 : Req := { r with query := r.query.reverse }
+  let dec (fl : Flavour) (rq : Req) : NOut :=
+    if rq.query.isEmpty then ⟨none, false, none⟩ else queryNest fl.prim fl.presenceAware name (fl.deepReq name rq) props req addl
+  let om := dec impl r
+  let om2 := dec impl r2
+  let os := dec spec r
+  let vm := validateNest impl enumHitImpl p r
+  let vm2 := validateNest impl enumHitImpl p r2
+  let vs := validateNest spec enumHitSpec p r
+  let hasAlt := !noutSame om om2 || vm2 != vm
+  let dp := deepProps name r.query
+  let pc : Param := ⟨⟨.query, .deepObject, true⟩, name, p.required, p.allowEmpty, .leaf (.prim { t := .string })⟩
+  let excl :=
+    (if nsEnumInt32 (.obj props req addl) then ["EnumGoType"] else []) ++
+    (if props.isEmpty && addl.isSome then ["QueryObjNoProps"] else []) ++
+    (if DeepKeyJunk pc r then ["DeepKeyJunk"] else [])
+  let unsupported := !collisionOK dp || dp.any (fun kv => kv.1.any (fun s => s.isEmpty || oddIndex s)) ||
+    (reqStrings r).any exoticNumberText
+  let maxSegs := (dp.map (fun kv => kv.1.length)).foldl Nat.max 0
+  let branches := if r.query.isEmpty then [] else
+    ["cell.query.deepObject.x", "shape.nest", s!"nest.schemaDepth.{(NS.obj props req addl).depth}", s!"nest.keyDepth.{maxSegs}",
+     s!"verdict.{verdictStr vm}", (if om.found then "found" else "notfound"),
+     (match om.val with | none => "val.nilmap" | some [] => "val.emptyobj" | some _ => "val.nest")] ++
+    (if hasAlt then ["deep.orderDependent"] else []) ++
+    (if unsupported then ["unsupported.notCompared"] else ["nest.compared", s!"nest.verdict.{verdictStr vm}"]) ++
+    (if vm ≠ vs then ["model≠spec"] else [])
+  jobj [
+    ("model", jobj [("value", noutJson pvJson om), ("found", Json.bool om.found), ("err", errStr om.err), ("verdict", verdictStr vm)]),
+    ("spec", jobj [("value", noutJson pvJsonS os), ("found", Json.bool os.found), ("err", errStr os.err), ("verdict", verdictStr vs),
+                   ("enc_ok", Json.bool true), ("oracle", Json.bool false), ("decode_agrees", Json.bool true)]),
+    ("model_alt", if hasAlt then jobj [("value", noutJson pvJson om2), ("found", Json.bool om2.found), ("err", errStr om2.err), ("verdict", verdictStr vm2)] else Json.null),
+    ("excl", jstrs excl),
+    ("unsupported", Json.bool unsupported),
+    ("branches", jstrs branches)]
+
+/-! ### content-described parameters (mode "content") -/
+
+def scalarPV : Json → Option PV
+  | .bool b => some (.bool b)
+  | .num n => some (.num n.mantissa (- Int.ofNat n.exponent))
+  | .str s => some (.str (chars s))
+  | _ => none
+
+/-- a JSON value as a `Val`; `none`: a shape `Val` cannot hold (nested containers, null inside a container) -/
+def jsonVal : Json → Option Val
+  | .null => some .nil
+  | .arr xs => (xs.toList.mapM scalarPV).map Val.arr
+  | .obj kvs => ((kvs.toList.mapM (fun (k, v) => (scalarPV v).map (fun pv => (chars k, pv))))).map Val.obj
+  | j => (scalarPV j).map Val.prim
+
+/-- json.Unmarshal of one text, as far as the model goes -/
+def unmText (t : Str) : Option Val :=
+  match Json.parse (text t) with
+  | .ok j => jsonVal j
+  | .error _ => none
+
+def unsupportedJSON (t : Str) : Bool :=
+  match Json.parse (text t) with
+  | .ok j => (jsonVal j).isNone
+  | .error _ => false
+
+def handleContent (j : Json) : Json :=
+  let loc := parseLoc (getStr j "in")
+  let name := chars (getStr j "name")
+  let sj := getD j "schema" .null
+  let sch : Option Sch := if sj.isNull then none else some (parseSch sj)
+  let p : CParam := ⟨loc, name, getBool j "required", getBool j "allowEmpty", (getArr j "media").map (fun m => chars (asStr m)), sch⟩
+  let r := parseReq j
+  let vm := validateContent unmText (visitSch enumHitImpl deepEqImpl) false p r
+  let vs := validateContent unmText (visitSch enumHitSpec enumHitSpec) true p r
+  let vals := (contentValues loc name r).getD []
+  -- several values: every item must be a scalar for the model's `Val.arr`
+  let itemNotScalar (t : Str) : Bool := match Json.parse (text t) with
+    | .ok j => (scalarPV j).isNone
+    | .error _ => false
+  let unsupported := vals.any unsupportedJSON || (vals.length ≠ 1 && vals.any itemNotScalar)
+  let outKind := match decodeContent unmText true p r with
+    | .absent => "absent" | .err => "error" | .missingErr => "missingErr"
+    | .val .nil => "null" | .val (.prim (.str _)) => "string" | .val (.prim _) => "scalar" | .val (.arr _) => "array" | .val _ => "object"
+  let branches :=
+    ["mode.content", s!"content.in.{getStr j "in"}", s!"content.values.{min vals.length 3}", s!"content.decoded.{outKind}",
+     s!"content.verdict.{verdictStr vm}", (if sch.isNone then "content.noSchema" else "content.schema")] ++
+    (if unsupported then ["unsupported.notCompared"] else []) ++
+    (if vm ≠ vs then ["model≠spec"] else [])
+  jobj [
+    ("model", jobj [("value", Json.null), ("found", Json.bool (contentValues loc name r).isSome), ("err", Json.null), ("verdict", verdictStr vm)]),
+    ("spec", jobj [("value", Json.null), ("found", Json.bool (contentValues loc name r).isSome), ("err", Json.null), ("verdict", verdictStr vs),
+                   ("enc_ok", Json.bool true), ("oracle", Json.bool false), ("decode_agrees", Json.bool true)]),
+    ("excl", jstrs ((if ContentMissing p r then ["ContentMissing"] else []) ++ (if ContentCookieAbsent p r then ["ContentCookieAbsent"] else []))),
+    ("unsupported", Json.bool unsupported),
+    ("branches", jstrs branches)]
+
+def handleFlat (j : Json) : Json :=
   let cell : Cell := ⟨parseLoc (getStr j "in"), parseSty (getStr j "style"), getBool j "explode"⟩
   let name := chars (getStr j "name")
   let sch := parseSch (getD j "schema" .null)
@@ -191,8 +339,15 @@ def handle (j : Json) : Json :=
   let r := parseReq j
   let om := decodeStyled impl cell name p.required r sch
   let os := decodeStyled spec cell name p.required r sch
-  let vm := validateParameter p r
-  let vs := validateSpec p r
+  -- mode "resp": the header is a response header, decided by validateResponseHeader
+  let resp := getStr j "mode" == "resp"
+  let vm := if resp then respHeaderImpl name cell.style cell.explode p.required r sch else validateParameter p r
+  let vs := if resp then respHeaderSpec name cell.style cell.explode p.required r sch else validateSpec p r
+  -- the other map order (see collisionOK)
+  let r2 : Req := { r with query := r.query.reverse }
+  let om2 := decodeStyled impl cell name p.required r2 sch
+  let vm2 := if resp then vm else validateParameter p r2
+  let hasAlt := cell.style == .deepObject && cell.loc == .query && (om2 != om || vm2 != vm)
   let texts := parseTexts j
   -- the round-trip oracle: for a leaf schema and encodable texts the specification's value is the value that was serialised
   let oracle : Option Val := match texts, sch with
@@ -205,8 +360,10 @@ def handle (j : Json) : Json :=
   let excl :=
     (if CookieExplode p then ["CookieExplode"] else []) ++
     (if EnumGoType p then ["EnumGoType"] else []) ++
-    (if AddlShadow p then ["AddlShadow"] else []) ++
     (if QueryObjAbsent p r then ["QueryObjAbsent"] else []) ++
+    (if QueryObjNoProps p then ["QueryObjNoProps"] else []) ++
+    (if DeepKeyJunk p r then ["DeepKeyJunk"] else []) ++
+    (if UntypedSchema p then ["UntypedSchema"] else []) ++
     []
   let unsupported := (schLeaves sch).any (unsupportedLeaf cell name r) ||
     ((schLeaves sch).any leafHasNum && (reqStrings r).any exoticNumberText)
@@ -220,14 +377,22 @@ def handle (j : Json) : Json :=
     [valBranch om.val] ++
     (if oracle.isSome then ["roundtrip"] else []) ++
     (if earlyAbsent cell r then ["early.absent"] else []) ++
+    (if resp then ["mode.responseHeader"] else []) ++
+    (if hasAlt then ["deep.orderDependent"] else []) ++
+    (if unsupported then ["unsupported.notCompared"] else []) ++
     (if vm ≠ vs then ["model≠spec"] else [])
   jobj [
     ("model", jobj [("value", valJson om.val), ("found", Json.bool om.found), ("err", errStr om.err), ("verdict", verdictStr vm)]),
     ("spec", jobj [("value", valJsonS specVal), ("found", Json.bool os.found), ("err", errStr os.err), ("verdict", verdictStr vs),
                    ("enc_ok", Json.bool encOK), ("oracle", Json.bool oracle.isSome),
                    ("decode_agrees", Json.bool (match oracle with | none => true | some v => (valJsonS v).compress == (valJsonS os.val).compress))]),
+    ("model_alt", if hasAlt then jobj [("value", valJson om2.val), ("found", Json.bool om2.found), ("err", errStr om2.err), ("verdict", verdictStr vm2)] else Json.null),
     ("excl", jstrs excl),
     ("unsupported", Json.bool unsupported),
     ("branches", jstrs branches)]
+
+def handle (j : Json) : Json :=
+  if getStr j "mode" == "content" then handleContent j
+  else if getStr (getD j "schema" .null) "k" == "nest" then handleNest j else handleFlat j
 
 end KinModel.Drv.C05
